@@ -32,9 +32,22 @@ fn main() {
             let hs: Vec<_> = (0..2)
                 .map(|_| {
                     thread::spawn(|| {
-                        let b = Bump::new();
+                        // everything an arena that holds no chunk can be asked to do
+                        let mut b = Bump::new();
+                        b.reset();
                         b.alloc(());
                         let _ = b.alloc_slice_fill_copy(0, 0u8);
+                        let _ = b.alloc_try_with(|| Err::<std::convert::Infallible, u8>(1));
+                        let _ = b.chunk_capacity() + b.allocated_bytes() + b.allocated_bytes_including_metadata();
+                        let _ = b.iter_allocated_chunks().count();
+                        b.set_allocation_limit(Some(0));
+                        let _ = b.try_alloc(1u8);
+                        b.reset();
+                        let v: BVec<()> = BVec::new_in(&b);
+                        drop(v);
+                        drop(b);
+                        let c: Bump<16> = Bump::with_min_align();
+                        c.alloc(());
                     })
                 })
                 .collect();
